@@ -49,18 +49,42 @@ impl Vrp {
     fn v4(a: [u8; 4], plen: u8, maxlen: u8, asn: u32) -> Vrp {
         let mut addr = [0u8; 16];
         addr[..4].copy_from_slice(&a);
-        Vrp { v6: false, addr, plen, maxlen, asn }
+        Vrp {
+            v6: false,
+            addr,
+            plen,
+            maxlen,
+            asn,
+        }
     }
     fn v6(addr: [u8; 16], plen: u8, maxlen: u8, asn: u32) -> Vrp {
-        Vrp { v6: true, addr, plen, maxlen, asn }
+        Vrp {
+            v6: true,
+            addr,
+            plen,
+            maxlen,
+            asn,
+        }
     }
     fn render(&self) -> String {
         if self.v6 {
-            format!("{}/{}-{} AS{}", std::net::Ipv6Addr::from(self.addr), self.plen, self.maxlen, self.asn)
+            format!(
+                "{}/{}-{} AS{}",
+                std::net::Ipv6Addr::from(self.addr),
+                self.plen,
+                self.maxlen,
+                self.asn
+            )
         } else {
             format!(
                 "{}.{}.{}.{}/{}-{} AS{}",
-                self.addr[0], self.addr[1], self.addr[2], self.addr[3], self.plen, self.maxlen, self.asn
+                self.addr[0],
+                self.addr[1],
+                self.addr[2],
+                self.addr[3],
+                self.plen,
+                self.maxlen,
+                self.asn
             )
         }
     }
@@ -95,9 +119,24 @@ fn vrp_pool(rng: &mut Rng, n: usize) -> Vec<Vrp> {
         Vrp::v4([192, 0, 2, 1], 32, 32, 4294967295),
         Vrp::v4([198, 51, 100, 0], 25, 25, 0),
         Vrp::v6([0; 16], 0, 0, 65001),
-        Vrp::v6(clean([0x20, 1, 0xd, 0xb8, 0, 0, 0, 0, 0, 0, 0, 0, 0, 0, 0, 0], 32), 32, 48, 65001),
-        Vrp::v6(clean([0x20, 1, 0xd, 0xb8, 0, 0, 0, 0, 0, 0, 0, 0, 0, 0, 0, 0], 32), 32, 128, 65002),
-        Vrp::v6([0x20, 1, 0xd, 0xb8, 0, 0, 0, 0, 0, 0, 0, 0, 0, 0, 0, 1], 128, 128, 4200000000),
+        Vrp::v6(
+            clean([0x20, 1, 0xd, 0xb8, 0, 0, 0, 0, 0, 0, 0, 0, 0, 0, 0, 0], 32),
+            32,
+            48,
+            65001,
+        ),
+        Vrp::v6(
+            clean([0x20, 1, 0xd, 0xb8, 0, 0, 0, 0, 0, 0, 0, 0, 0, 0, 0, 0], 32),
+            32,
+            128,
+            65002,
+        ),
+        Vrp::v6(
+            [0x20, 1, 0xd, 0xb8, 0, 0, 0, 0, 0, 0, 0, 0, 0, 0, 0, 1],
+            128,
+            128,
+            4200000000,
+        ),
     ];
     rng.shuffle(&mut fixed);
     let mut out: Vec<Vrp> = fixed.into_iter().take(n.min(6)).collect();
@@ -111,7 +150,13 @@ fn vrp_pool(rng: &mut Rng, n: usize) -> Vec<Vrp> {
             a[3] = rng.below(256) as u8;
             let a = clean(a, plen);
             let maxlen = rng.range(plen as u64, 32) as u8;
-            Vrp { v6: false, addr: a, plen, maxlen, asn: 65000 + rng.below(4) as u32 }
+            Vrp {
+                v6: false,
+                addr: a,
+                plen,
+                maxlen,
+                asn: 65000 + rng.below(4) as u32,
+            }
         } else {
             let plen = *rng.pick(&[16u8, 29, 32, 40, 48, 56, 64, 127, 128]);
             let mut a = [0u8; 16];
@@ -125,7 +170,13 @@ fn vrp_pool(rng: &mut Rng, n: usize) -> Vec<Vrp> {
             a[15] = rng.below(4) as u8;
             let a = clean(a, plen);
             let maxlen = rng.range(plen as u64, 128) as u8;
-            Vrp { v6: true, addr: a, plen, maxlen, asn: 65000 + rng.below(4) as u32 }
+            Vrp {
+                v6: true,
+                addr: a,
+                plen,
+                maxlen,
+                asn: 65000 + rng.below(4) as u32,
+            }
         };
         if !out.contains(&v) {
             out.push(v);
@@ -147,8 +198,12 @@ fn installed(tables: &TableHandle, addr: &IpAddr) -> (BTreeSet<Vrp>, usize) {
                 continue;
             }
             let v = match net {
-                packet::IpNet::V4(n) => Vrp::v4(n.addr.octets(), n.mask, roa.max_length, roa.as_number),
-                packet::IpNet::V6(n) => Vrp::v6(n.addr.octets(), n.mask, roa.max_length, roa.as_number),
+                packet::IpNet::V4(n) => {
+                    Vrp::v4(n.addr.octets(), n.mask, roa.max_length, roa.as_number)
+                }
+                packet::IpNet::V6(n) => {
+                    Vrp::v6(n.addr.octets(), n.mask, roa.max_length, roa.as_number)
+                }
             };
             if !set.insert(v) {
                 dups += 1;
@@ -196,7 +251,12 @@ fn hdr(ver: u8, typ: u8, mid: u16, len: u32) -> Vec<u8> {
 fn pdu_serial_notify(ver: u8, session: u16, serial: u32) -> Pdu {
     let mut b = hdr(ver, T_SERIAL_NOTIFY, session, 12);
     b.extend_from_slice(&serial.to_be_bytes());
-    Pdu { kind: "serial-notify", counted: true, desc: format!("serial-notify v{} sid={} serial={}", ver, session, serial), bytes: b }
+    Pdu {
+        kind: "serial-notify",
+        counted: true,
+        desc: format!("serial-notify v{} sid={} serial={}", ver, session, serial),
+        bytes: b,
+    }
 }
 
 fn pdu_cache_response(ver: u8, session: u16) -> Pdu {
@@ -226,7 +286,13 @@ fn pdu_prefix(ver: u8, announce: bool, v: &Vrp) -> Pdu {
     Pdu {
         kind,
         counted: true,
-        desc: format!("{} v{} {} {}", kind, ver, if announce { "announce" } else { "withdraw" }, v.render()),
+        desc: format!(
+            "{} v{} {} {}",
+            kind,
+            ver,
+            if announce { "announce" } else { "withdraw" },
+            v.render()
+        ),
         bytes,
     }
 }
@@ -235,7 +301,12 @@ fn pdu_end_of_data(ver: u8, session: u16, serial: u32, intervals: (u32, u32, u32
     if ver == 0 {
         let mut b = hdr(0, T_END_OF_DATA, session, 12);
         b.extend_from_slice(&serial.to_be_bytes());
-        Pdu { kind: "end-of-data-v0", counted: true, desc: format!("end-of-data v0 sid={} serial={}", session, serial), bytes: b }
+        Pdu {
+            kind: "end-of-data-v0",
+            counted: true,
+            desc: format!("end-of-data v0 sid={} serial={}", session, serial),
+            bytes: b,
+        }
     } else {
         let mut b = hdr(ver, T_END_OF_DATA, session, 24);
         b.extend_from_slice(&serial.to_be_bytes());
@@ -255,7 +326,12 @@ fn pdu_end_of_data(ver: u8, session: u16, serial: u32, intervals: (u32, u32, u32
 }
 
 fn pdu_cache_reset(ver: u8) -> Pdu {
-    Pdu { kind: "cache-reset", counted: true, desc: format!("cache-reset v{}", ver), bytes: hdr(ver, T_CACHE_RESET, 0, 8) }
+    Pdu {
+        kind: "cache-reset",
+        counted: true,
+        desc: format!("cache-reset v{}", ver),
+        bytes: hdr(ver, T_CACHE_RESET, 0, 8),
+    }
 }
 
 #[derive(Clone, PartialEq, Eq, Debug)]
@@ -280,7 +356,12 @@ fn pdu_router_key(announce: bool, k: &RKey) -> Pdu {
     Pdu {
         kind: "router-key",
         counted: false,
-        desc: format!("router-key v1 {} AS{} spki={}B", if announce { "announce" } else { "withdraw" }, k.asn, k.spki.len()),
+        desc: format!(
+            "router-key v1 {} AS{} spki={}B",
+            if announce { "announce" } else { "withdraw" },
+            k.asn,
+            k.spki.len()
+        ),
         bytes: b,
     }
 }
@@ -296,7 +377,13 @@ fn pdu_error_report(ver: u8, code: u16, encapsulated: &[u8], text: &str) -> Pdu 
     Pdu {
         kind: "error-report",
         counted: true,
-        desc: format!("error-report v{} code={} encap={}B text={:?}", ver, code, encapsulated.len(), text),
+        desc: format!(
+            "error-report v{} code={} encap={}B text={:?}",
+            ver,
+            code,
+            encapsulated.len(),
+            text
+        ),
         bytes: b,
     }
 }
@@ -329,7 +416,12 @@ fn parse_client(buf: &mut Vec<u8>) -> Result<Option<ClientPdu>, String> {
     } else {
         0
     };
-    Ok(Some(ClientPdu { typ, session, serial, raw }))
+    Ok(Some(ClientPdu {
+        typ,
+        session,
+        serial,
+        raw,
+    }))
 }
 
 // ------------------------------------------------------------------ conforming cache model
@@ -366,7 +458,14 @@ fn pick_session(rng: &mut Rng) -> u16 {
 }
 
 impl Cache {
-    fn new(rng: &mut Rng, pool: Vec<Vrp>, ver: u8, use_keys: bool, churn: bool, init: usize) -> Cache {
+    fn new(
+        rng: &mut Rng,
+        pool: Vec<Vrp>,
+        ver: u8,
+        use_keys: bool,
+        churn: bool,
+        init: usize,
+    ) -> Cache {
         let keypool = (0..4)
             .map(|i| {
                 let mut ski = [0u8; 20];
@@ -375,7 +474,11 @@ impl Cache {
                 }
                 // a DER SubjectPublicKeyInfo for ECDSA P-256 is 91 bytes
                 let n = *rng.pick(&[91usize, 91, 120]);
-                RKey { ski, asn: 65000 + i, spki: rng.bytes(n) }
+                RKey {
+                    ski,
+                    asn: 65000 + i,
+                    spki: rng.bytes(n),
+                }
             })
             .collect();
         let mut c = Cache {
@@ -435,7 +538,11 @@ impl Cache {
 
     fn intervals(&self, rng: &mut Rng) -> (u32, u32, u32) {
         // RFC 8210 §6 ranges
-        (rng.range(1, 86400) as u32, rng.range(1, 7200) as u32, rng.range(600, 172800) as u32)
+        (
+            rng.range(1, 86400) as u32,
+            rng.range(1, 7200) as u32,
+            rng.range(600, 172800) as u32,
+        )
     }
 
     fn insert_keys(&self, rng: &mut Rng, body: &mut Vec<Pdu>, keys: Vec<(bool, RKey)>) {
@@ -447,7 +554,11 @@ impl Cache {
 
     /// Answer to a Reset Query: Cache Response, everything we have, End of Data.
     fn full_response(&mut self, rng: &mut Rng) -> Vec<Pdu> {
-        let mut body: Vec<Pdu> = self.set.iter().map(|v| pdu_prefix(self.ver, true, v)).collect();
+        let mut body: Vec<Pdu> = self
+            .set
+            .iter()
+            .map(|v| pdu_prefix(self.ver, true, v))
+            .collect();
         rng.shuffle(&mut body);
         if self.use_keys {
             let keys = self.keys.iter().map(|k| (true, k.clone())).collect();
@@ -457,7 +568,8 @@ impl Cache {
         out.extend(body);
         let iv = self.intervals(rng);
         out.push(pdu_end_of_data(self.ver, self.session_id, self.serial, iv));
-        self.hist.insert(self.serial, (self.set.clone(), self.keys.clone()));
+        self.hist
+            .insert(self.serial, (self.set.clone(), self.keys.clone()));
         out
     }
 
@@ -512,7 +624,8 @@ impl Cache {
         out.extend(body);
         let iv = self.intervals(rng);
         out.push(pdu_end_of_data(self.ver, self.session_id, self.serial, iv));
-        self.hist.insert(self.serial, (self.set.clone(), self.keys.clone()));
+        self.hist
+            .insert(self.serial, (self.set.clone(), self.keys.clone()));
         Some(out)
     }
 }
@@ -528,12 +641,22 @@ fn fold(base: &BTreeSet<Vrp>, pdus: &[Pdu]) -> Result<BTreeSet<Vrp>, String> {
             T_IPV4 => {
                 let mut a = [0u8; 4];
                 a.copy_from_slice(&b[12..16]);
-                Vrp::v4(a, b[9], b[10], u32::from_be_bytes([b[16], b[17], b[18], b[19]]))
+                Vrp::v4(
+                    a,
+                    b[9],
+                    b[10],
+                    u32::from_be_bytes([b[16], b[17], b[18], b[19]]),
+                )
             }
             T_IPV6 => {
                 let mut a = [0u8; 16];
                 a.copy_from_slice(&b[12..28]);
-                Vrp::v6(a, b[9], b[10], u32::from_be_bytes([b[28], b[29], b[30], b[31]]))
+                Vrp::v6(
+                    a,
+                    b[9],
+                    b[10],
+                    u32::from_be_bytes([b[28], b[29], b[30], b[31]]),
+                )
             }
             _ => continue,
         };
@@ -567,7 +690,11 @@ struct ProbeIo {
 }
 
 impl AsyncRead for ProbeIo {
-    fn poll_read(mut self: Pin<&mut Self>, cx: &mut Context<'_>, buf: &mut ReadBuf<'_>) -> Poll<std::io::Result<()>> {
+    fn poll_read(
+        mut self: Pin<&mut Self>,
+        cx: &mut Context<'_>,
+        buf: &mut ReadBuf<'_>,
+    ) -> Poll<std::io::Result<()>> {
         let before = buf.filled().len();
         let r = Pin::new(&mut self.inner).poll_read(cx, buf);
         match &r {
@@ -587,7 +714,11 @@ impl AsyncRead for ProbeIo {
 }
 
 impl AsyncWrite for ProbeIo {
-    fn poll_write(mut self: Pin<&mut Self>, cx: &mut Context<'_>, buf: &[u8]) -> Poll<std::io::Result<usize>> {
+    fn poll_write(
+        mut self: Pin<&mut Self>,
+        cx: &mut Context<'_>,
+        buf: &[u8],
+    ) -> Poll<std::io::Result<usize>> {
         Pin::new(&mut self.inner).poll_write(cx, buf)
     }
     fn poll_flush(mut self: Pin<&mut Self>, cx: &mut Context<'_>) -> Poll<std::io::Result<()>> {
@@ -603,7 +734,9 @@ impl AsyncWrite for ProbeIo {
 #[derive(Clone, Copy, PartialEq, Eq, Debug)]
 enum St {
     /// connected; the client's Reset Query is to be answered
-    AwaitReset { after_cache_reset: bool },
+    AwaitReset {
+        after_cache_reset: bool,
+    },
     Synced,
     /// Cache Reset was sent and the client did not come back with a Reset Query
     ResetPending,
@@ -693,14 +826,35 @@ fn counters_sum(s: &RpkiState) -> i64 {
 
 fn counters_json(s: &RpkiState) -> Json {
     Json::obj(vec![
-        ("serial_notify", Json::i(s.serial_notify.load(Ordering::Relaxed))),
-        ("cache_response", Json::i(s.cache_response.load(Ordering::Relaxed))),
-        ("received_ipv4", Json::i(s.received_ipv4.load(Ordering::Relaxed))),
-        ("received_ipv6", Json::i(s.received_ipv6.load(Ordering::Relaxed))),
-        ("end_of_data", Json::i(s.end_of_data.load(Ordering::Relaxed))),
-        ("cache_reset", Json::i(s.cache_reset.load(Ordering::Relaxed))),
+        (
+            "serial_notify",
+            Json::i(s.serial_notify.load(Ordering::Relaxed)),
+        ),
+        (
+            "cache_response",
+            Json::i(s.cache_response.load(Ordering::Relaxed)),
+        ),
+        (
+            "received_ipv4",
+            Json::i(s.received_ipv4.load(Ordering::Relaxed)),
+        ),
+        (
+            "received_ipv6",
+            Json::i(s.received_ipv6.load(Ordering::Relaxed)),
+        ),
+        (
+            "end_of_data",
+            Json::i(s.end_of_data.load(Ordering::Relaxed)),
+        ),
+        (
+            "cache_reset",
+            Json::i(s.cache_reset.load(Ordering::Relaxed)),
+        ),
         ("error", Json::i(s.error.load(Ordering::Relaxed))),
-        ("serial_query", Json::i(s.serial_query.load(Ordering::Relaxed))),
+        (
+            "serial_query",
+            Json::i(s.serial_query.load(Ordering::Relaxed)),
+        ),
     ])
 }
 
@@ -740,24 +894,41 @@ impl Sess {
         let (client_io, server_io) = tokio::io::duplex(1 << 20);
         self.probe = Arc::new(Probe::default());
         self.arc = Arc::new(self.addr);
-        let framed = Framed::new(ProbeIo { inner: client_io, probe: self.probe.clone() }, rpki::RtrCodec::new());
-        let (arc, cancel, soft, state, tables) =
-            (self.arc.clone(), self.cancel.clone(), self.soft_reset.clone(), self.state.clone(), cx.tables.clone());
-        self.handle =
-            Some(tokio::spawn(async move { RpkiClient::serve_inner(framed, arc, cancel, soft, state, tables).await }));
+        let framed = Framed::new(
+            ProbeIo {
+                inner: client_io,
+                probe: self.probe.clone(),
+            },
+            rpki::RtrCodec::new(),
+        );
+        let (arc, cancel, soft, state, tables) = (
+            self.arc.clone(),
+            self.cancel.clone(),
+            self.soft_reset.clone(),
+            self.state.clone(),
+            cx.tables.clone(),
+        );
+        self.handle = Some(tokio::spawn(async move {
+            RpkiClient::serve_inner(framed, arc, cancel, soft, state, tables).await
+        }));
         self.io = Some(server_io);
         self.written = 0;
         self.sent.clear();
         self.inbuf.clear();
         self.queries.clear();
         self.base_sum = counters_sum(&self.state);
-        self.st = St::AwaitReset { after_cache_reset: false };
+        self.st = St::AwaitReset {
+            after_cache_reset: false,
+        };
         self.expect.clear();
         self.diverged = false;
         self.last_eod = None;
         self.connections += 1;
         cx.count("connections");
-        cx.log(format!("{}: connect #{} (cache {} speaks RTR v{})", self.label, self.connections, self.addr, self.cache.ver));
+        cx.log(format!(
+            "{}: connect #{} (cache {} speaks RTR v{})",
+            self.label, self.connections, self.addr, self.cache.ver
+        ));
     }
 
     /// Non-blocking read of whatever the client has written to us.
@@ -775,7 +946,9 @@ impl Sess {
                 Ok(Some(p)) => {
                     let what = match p.typ {
                         T_RESET_QUERY => "reset-query".to_string(),
-                        T_SERIAL_QUERY => format!("serial-query sid={} serial={}", p.session, p.serial),
+                        T_SERIAL_QUERY => {
+                            format!("serial-query sid={} serial={}", p.session, p.serial)
+                        }
                         t => format!("type {}", t),
                     };
                     cx.count(&format!("client-pdu:{}", what.split(' ').next().unwrap()));
@@ -802,7 +975,11 @@ impl Sess {
         for _ in 0..20_000 {
             tokio::task::yield_now().await;
             self.drain_client(cx);
-            let finished = self.handle.as_ref().map(|h| h.is_finished()).unwrap_or(true);
+            let finished = self
+                .handle
+                .as_ref()
+                .map(|h| h.is_finished())
+                .unwrap_or(true);
             let sig = (
                 self.probe.read_total.load(Ordering::SeqCst),
                 counters_sum(&self.state) + self.state.serial_query.load(Ordering::Relaxed),
@@ -874,13 +1051,21 @@ impl Sess {
         let mut off = 0;
         let mut frags = 0u64;
         while off < limit {
-            let n = if maxchunk == usize::MAX { limit - off } else { (1 + self.rng.usize(maxchunk)).min(limit - off) };
-            let Some(io) = self.io.as_mut() else { return false };
+            let n = if maxchunk == usize::MAX {
+                limit - off
+            } else {
+                (1 + self.rng.usize(maxchunk)).min(limit - off)
+            };
+            let Some(io) = self.io.as_mut() else {
+                return false;
+            };
             match io.write_all(&all[off..off + n]).now_or_never() {
                 Some(Ok(())) => {}
                 Some(Err(_)) => return false,
                 None => {
-                    cx.rep.borrow_mut().inconclusive("pipe towards the client filled up (1 MiB)");
+                    cx.rep
+                        .borrow_mut()
+                        .inconclusive("pipe towards the client filled up (1 MiB)");
                     return false;
                 }
             }
@@ -921,7 +1106,9 @@ impl Sess {
             return true;
         }
         if consumed > expected {
-            rep.inconclusive("client counted more PDUs than the cache model sent (harness accounting)");
+            rep.inconclusive(
+                "client counted more PDUs than the cache model sent (harness accounting)",
+            );
             return false;
         }
         // first PDU after the last one the client accounted for
@@ -941,7 +1128,10 @@ impl Sess {
         let (sig, what) = if q == Q::Exited {
             (
                 format!("C13/stall/quit-on-{}", wedge),
-                format!("client ended the session on a well-formed {} PDU from a conforming cache", wedge),
+                format!(
+                    "client ended the session on a well-formed {} PDU from a conforming cache",
+                    wedge
+                ),
             )
         } else {
             (
@@ -955,13 +1145,19 @@ impl Sess {
         drop(rep);
         let w = cx.witness(vec![
             ("session", Json::s(self.label)),
-            ("pdus_sent_this_connection", Json::strs(self.sent.iter().map(|p| p.0.to_string()))),
+            (
+                "pdus_sent_this_connection",
+                Json::strs(self.sent.iter().map(|p| p.0.to_string())),
+            ),
             ("first_unconsumed_index", Json::i(idx as i64)),
             ("pdus_client_accounted_for", Json::i(consumed)),
             ("pdus_with_a_counter_sent", Json::i(expected)),
             ("client_counters", counters_json(&self.state)),
             ("bytes_written", Json::i(self.written as i64)),
-            ("bytes_client_read", Json::i(self.probe.read_total.load(Ordering::SeqCst) as i64)),
+            (
+                "bytes_client_read",
+                Json::i(self.probe.read_total.load(Ordering::SeqCst) as i64),
+            ),
         ]);
         cx.rep.borrow_mut().violation(&sig, &what, w);
         self.st = St::Dead;
@@ -976,7 +1172,10 @@ impl Sess {
         if dups > 0 {
             rep.count("unjudged:duplicate-entries-installed");
         }
-        let npfx = response.iter().filter(|p| p.kind.ends_with("-prefix")).count();
+        let npfx = response
+            .iter()
+            .filter(|p| p.kind.ends_with("-prefix"))
+            .count();
         if npfx > 0 || !prev.is_empty() {
             let mut h = phase.as_bytes().to_vec();
             for v in prev {
@@ -987,10 +1186,15 @@ impl Sess {
             }
             rep.nontrivial(fnv64(&h));
         }
-        if response.iter().any(|p| p.kind.ends_with("-prefix") && p.bytes[8] & 1 == 0) {
+        if response
+            .iter()
+            .any(|p| p.kind.ends_with("-prefix") && p.bytes[8] & 1 == 0)
+        {
             rep.count("shape:response-with-withdraw");
         }
-        if response.iter().any(|p| p.kind == "ipv6-prefix") && response.iter().any(|p| p.kind == "ipv4-prefix") {
+        if response.iter().any(|p| p.kind == "ipv6-prefix")
+            && response.iter().any(|p| p.kind == "ipv4-prefix")
+        {
             rep.count("shape:response-mixing-v4-v6");
         }
         if response.iter().any(|p| p.kind == "router-key") {
@@ -1034,17 +1238,32 @@ impl Sess {
 
     /// Send a whole response and judge it.  Returns false if the session is
     /// no longer usable.
-    async fn respond_and_judge(&mut self, cx: &Ctx<'_>, phase: &str, pdus: Vec<Pdu>, reset: bool) -> bool {
-        let prev = if reset { BTreeSet::new() } else { self.expect.clone() };
+    async fn respond_and_judge(
+        &mut self,
+        cx: &Ctx<'_>,
+        phase: &str,
+        pdus: Vec<Pdu>,
+        reset: bool,
+    ) -> bool {
+        let prev = if reset {
+            BTreeSet::new()
+        } else {
+            self.expect.clone()
+        };
         let folded = match fold(&prev, &pdus) {
             Ok(f) => f,
             Err(e) => {
-                cx.rep.borrow_mut().inconclusive(&format!("cache model produced a non-conforming response: {}", e));
+                cx.rep.borrow_mut().inconclusive(&format!(
+                    "cache model produced a non-conforming response: {}",
+                    e
+                ));
                 return false;
             }
         };
         if folded != self.cache.set {
-            cx.rep.borrow_mut().inconclusive("cache model: fold of its responses differs from its data set");
+            cx.rep
+                .borrow_mut()
+                .inconclusive("cache model: fold of its responses differs from its data set");
             return false;
         }
         if !self.send(cx, &pdus, None).await {
@@ -1053,7 +1272,9 @@ impl Sess {
         let q = self.settle(cx).await;
         match q {
             Q::Watchdog | Q::Unsettled => {
-                cx.rep.borrow_mut().inconclusive("quiescence not reached after a response (watchdog)");
+                cx.rep
+                    .borrow_mut()
+                    .inconclusive("quiescence not reached after a response (watchdog)");
                 self.st = St::Dead;
                 return false;
             }
@@ -1102,7 +1323,9 @@ impl Sess {
                 h.abort();
                 let _ = h.await;
             }
-            cx.rep.borrow_mut().inconclusive("client task did not finish after the session ended (watchdog)");
+            cx.rep
+                .borrow_mut()
+                .inconclusive("client task did not finish after the session ended (watchdog)");
             return;
         }
         if let Some(h) = self.handle.take() {
@@ -1128,7 +1351,10 @@ impl Sess {
         self.expect.clear();
         if !got.is_empty() {
             let sig = format!("C13/session-end/vrps-remain/{}", how);
-            let w = cx.witness(vec![("session", Json::s(self.label)), ("still_installed", render_set(&got))]);
+            let w = cx.witness(vec![
+                ("session", Json::s(self.label)),
+                ("still_installed", render_set(&got)),
+            ]);
             cx.rep.borrow_mut().violation(
                 &sig,
                 "VRPs of a cache are still installed after its session has ended (serve_inner returned)",
@@ -1140,7 +1366,13 @@ impl Sess {
     /// One step of this cache's life.
     async fn step(&mut self, cx: &Ctx<'_>) {
         self.last_ev = Ev::None;
-        if self.handle.as_ref().map(|h| h.is_finished()).unwrap_or(false) && self.st != St::Closed {
+        if self
+            .handle
+            .as_ref()
+            .map(|h| h.is_finished())
+            .unwrap_or(false)
+            && self.st != St::Closed
+        {
             // the client left on its own
             let q = self.settle(cx).await;
             self.check_progress(cx, q);
@@ -1158,7 +1390,9 @@ impl Sess {
                 self.connect(cx);
                 cx.count("reconnects");
             }
-            St::AwaitReset { after_cache_reset } => self.step_await_reset(cx, after_cache_reset).await,
+            St::AwaitReset { after_cache_reset } => {
+                self.step_await_reset(cx, after_cache_reset).await
+            }
             St::Synced => self.step_synced(cx).await,
             St::ResetPending => {
                 if self.rng.bool() {
@@ -1170,11 +1404,17 @@ impl Sess {
             St::Unsynced => {
                 if self.rng.bool() {
                     // the cache has data now and says so
-                    let n = pdu_serial_notify(self.cache.ver, self.cache.session_id, self.cache.serial);
+                    let n =
+                        pdu_serial_notify(self.cache.ver, self.cache.session_id, self.cache.serial);
                     if self.send(cx, &[n], None).await {
                         let q = self.settle(cx).await;
-                        if q == Q::Parked && self.check_progress(cx, q) && self.take_query(T_RESET_QUERY).is_some() {
-                            self.st = St::AwaitReset { after_cache_reset: false };
+                        if q == Q::Parked
+                            && self.check_progress(cx, q)
+                            && self.take_query(T_RESET_QUERY).is_some()
+                        {
+                            self.st = St::AwaitReset {
+                                after_cache_reset: false,
+                            };
                             return;
                         }
                     }
@@ -1192,7 +1432,9 @@ impl Sess {
             if q == Q::Exited {
                 self.check_progress(cx, q);
             } else {
-                cx.rep.borrow_mut().inconclusive("quiescence not reached while waiting for the Reset Query (watchdog)");
+                cx.rep.borrow_mut().inconclusive(
+                    "quiescence not reached while waiting for the Reset Query (watchdog)",
+                );
             }
             self.end(cx, "eof").await;
             return;
@@ -1202,7 +1444,11 @@ impl Sess {
             self.end(cx, "eof").await;
             return;
         };
-        let mut phase = if after_cache_reset { "after-cache-reset" } else { "reset" };
+        let mut phase = if after_cache_reset {
+            "after-cache-reset"
+        } else {
+            "reset"
+        };
         let k = self.rng.below(100);
         if k < 6 && !after_cache_reset {
             // RFC 8210 §5.11 / §12 code 2: no data yet; non-fatal
@@ -1261,7 +1507,9 @@ impl Sess {
             }
             let q = self.settle(cx).await;
             if !matches!(q, Q::Parked | Q::Exited) {
-                cx.rep.borrow_mut().inconclusive("quiescence not reached after a Serial Notify (watchdog)");
+                cx.rep
+                    .borrow_mut()
+                    .inconclusive("quiescence not reached after a Serial Notify (watchdog)");
                 self.st = St::Dead;
                 return;
             }
@@ -1284,7 +1532,9 @@ impl Sess {
             } else {
                 Vec::new()
             };
-            let text = *self.rng.pick(&["", "internal error", "d\u{e9}sol\u{e9}: erreur fatale"]);
+            let text = *self
+                .rng
+                .pick(&["", "internal error", "d\u{e9}sol\u{e9}: erreur fatale"]);
             let e = pdu_error_report(self.cache.ver, code, &encap, text);
             cx.count("shape:fatal-error-report");
             if self.send(cx, &[e], None).await {
@@ -1307,7 +1557,11 @@ impl Sess {
     async fn round(&mut self, cx: &Ctx<'_>, reset_pending: bool) {
         let by_notify = self.rng.chance(2, 3);
         let max = if cx.big { 8 } else { 3 };
-        let toggles = if by_notify { self.rng.range(1, max) } else { self.rng.range(0, max) } as usize;
+        let toggles = if by_notify {
+            self.rng.range(1, max)
+        } else {
+            self.rng.range(0, max)
+        } as usize;
         self.cache.mutate(&mut self.rng, toggles);
         if self.cache.serial < 3 || self.cache.serial > u32::MAX - 3 {
             cx.count("shape:serial-near-wrap");
@@ -1320,12 +1574,17 @@ impl Sess {
             }
         } else {
             cx.count("trigger:soft-reset");
-            cx.log(format!("{}: operator soft reset (soft_reset.notify_one)", self.label));
+            cx.log(format!(
+                "{}: operator soft reset (soft_reset.notify_one)",
+                self.label
+            ));
             self.soft_reset.notify_one();
         }
         let q = self.settle(cx).await;
         if !matches!(q, Q::Parked | Q::Exited) {
-            cx.rep.borrow_mut().inconclusive("quiescence not reached after a refresh trigger (watchdog)");
+            cx.rep
+                .borrow_mut()
+                .inconclusive("quiescence not reached after a refresh trigger (watchdog)");
             self.st = St::Dead;
             return;
         }
@@ -1337,7 +1596,11 @@ impl Sess {
             cx.count("unjudged:no-serial-query-after-trigger");
             return;
         };
-        let k = if reset_pending { 100 } else { self.rng.below(100) };
+        let k = if reset_pending {
+            100
+        } else {
+            self.rng.below(100)
+        };
         self.answer_serial_query(cx, sq, k).await;
     }
 
@@ -1349,7 +1612,8 @@ impl Sess {
             cx.count("unjudged:serial-query-not-matching-last-end-of-data");
         }
         let delta = if asked_from_last && (k < 78 || (82..90).contains(&k)) {
-            self.cache.delta_response(&mut self.rng, sq.session, sq.serial)
+            self.cache
+                .delta_response(&mut self.rng, sq.session, sq.serial)
         } else {
             None
         };
@@ -1378,12 +1642,17 @@ impl Sess {
             }
             None => {
                 cx.count("response:cache-reset");
-                if !self.send(cx, &[pdu_cache_reset(self.cache.ver)], None).await {
+                if !self
+                    .send(cx, &[pdu_cache_reset(self.cache.ver)], None)
+                    .await
+                {
                     return;
                 }
                 let q = self.settle(cx).await;
                 if !matches!(q, Q::Parked | Q::Exited) {
-                    cx.rep.borrow_mut().inconclusive("quiescence not reached after a Cache Reset (watchdog)");
+                    cx.rep
+                        .borrow_mut()
+                        .inconclusive("quiescence not reached after a Cache Reset (watchdog)");
                     self.st = St::Dead;
                     return;
                 }
@@ -1392,7 +1661,9 @@ impl Sess {
                 }
                 if self.queries.iter().any(|q| q.typ == T_RESET_QUERY) {
                     cx.count("cache-reset-followed-by-reset-query");
-                    self.st = St::AwaitReset { after_cache_reset: true };
+                    self.st = St::AwaitReset {
+                        after_cache_reset: true,
+                    };
                 } else {
                     // RFC 8210 §5.9 lets the router go elsewhere instead; the
                     // statement does not cover it
@@ -1414,7 +1685,11 @@ fn isolation_check(cx: &Ctx, others: &[(&'static str, IpAddr, BTreeSet<Vrp>)], a
         rep.count("isolation-judged");
         if !before.is_empty() {
             rep.count("isolation-judged:other-has-vrps");
-            if before.intersection(&actor.cache.pool.iter().cloned().collect()).next().is_some() {
+            if before
+                .intersection(&actor.cache.pool.iter().cloned().collect())
+                .next()
+                .is_some()
+            {
                 rep.count("isolation-judged:overlapping-records");
             }
         }
@@ -1443,10 +1718,17 @@ fn isolation_check(cx: &Ctx, others: &[(&'static str, IpAddr, BTreeSet<Vrp>)], a
 
 async fn run_stream(cx: &Ctx<'_>, rng: &mut Rng, idx: u64) {
     let two = idx >= 20 && rng.chance(2, 5);
-    let pool_n = if cx.big { rng.range(6, 40) } else { rng.range(2, 6) } as usize;
+    let pool_n = if cx.big {
+        rng.range(6, 40)
+    } else {
+        rng.range(2, 6)
+    } as usize;
     let pool = vrp_pool(rng, pool_n);
     let n = if two { 2 } else { 1 };
-    let addrs = [IpAddr::from([192, 0, 2, 53]), "2001:db8::53".parse::<IpAddr>().unwrap()];
+    let addrs = [
+        IpAddr::from([192, 0, 2, 53]),
+        "2001:db8::53".parse::<IpAddr>().unwrap(),
+    ];
     let mut sess: Vec<Sess> = Vec::new();
     for i in 0..n {
         let ver = if rng.chance(1, 3) { 0 } else { 1 };
@@ -1462,12 +1744,20 @@ async fn run_stream(cx: &Ctx<'_>, rng: &mut Rng, idx: u64) {
     {
         let mut rep = cx.rep.borrow_mut();
         rep.count("streams");
-        rep.count(if two { "streams:two-caches" } else { "streams:one-cache" });
+        rep.count(if two {
+            "streams:two-caches"
+        } else {
+            "streams:one-cache"
+        });
         for s in &sess {
             rep.count(&format!("cache-version:{}", s.cache.ver));
         }
     }
-    let steps = if cx.big { rng.range(2, 12) } else { rng.range(2, 5) };
+    let steps = if cx.big {
+        rng.range(2, 12)
+    } else {
+        rng.range(2, 5)
+    };
     for _ in 0..steps {
         if Instant::now() > cx.deadline {
             cx.rep.borrow_mut().inconclusive("stream watchdog fired");
@@ -1506,7 +1796,14 @@ async fn run_stream(cx: &Ctx<'_>, rng: &mut Rng, idx: u64) {
         isolation_check(cx, &others, &sess[i]);
     }
     let left = total_entries(&cx.tables);
-    if left > 0 && !cx.rep.borrow().violations.iter().any(|v| v.signature.starts_with("C13/session-end/")) {
+    if left > 0
+        && !cx
+            .rep
+            .borrow()
+            .violations
+            .iter()
+            .any(|v| v.signature.starts_with("C13/session-end/"))
+    {
         cx.count("unjudged:entries-of-unknown-source-left");
     }
 }
@@ -1537,10 +1834,18 @@ async fn run_cancel_case(cx: &Ctx<'_>, rng: &mut Rng) {
         let v = cache.pool[0];
         cache.set.insert(v);
     }
-    RpkiClient::try_connect(sockaddr, cancel.clone(), soft, state.clone(), cx.tables.clone());
+    RpkiClient::try_connect(
+        sockaddr,
+        cancel.clone(),
+        soft,
+        state.clone(),
+        cx.tables.clone(),
+    );
     let accept = tokio::time::timeout(Duration::from_secs(10), listener.accept()).await;
     let Ok(Ok((mut sock, _))) = accept else {
-        cx.rep.borrow_mut().inconclusive("try_connect did not reach the loopback listener (watchdog)");
+        cx.rep
+            .borrow_mut()
+            .inconclusive("try_connect did not reach the loopback listener (watchdog)");
         cancel.cancel();
         return;
     };
@@ -1561,7 +1866,9 @@ async fn run_cancel_case(cx: &Ctx<'_>, rng: &mut Rng) {
             break;
         }
         if Instant::now() > cx.deadline {
-            cx.rep.borrow_mut().inconclusive("client did not consume End of Data over loopback (watchdog)");
+            cx.rep
+                .borrow_mut()
+                .inconclusive("client did not consume End of Data over loopback (watchdog)");
             cancel.cancel();
             return;
         }
@@ -1582,7 +1889,9 @@ async fn run_cancel_case(cx: &Ctx<'_>, rng: &mut Rng) {
             Ok(Ok(0)) | Ok(Err(_)) => break,
             Ok(Ok(n)) => inbuf.extend_from_slice(&buf[..n]),
             Err(_) => {
-                cx.rep.borrow_mut().inconclusive("client socket not closed after cancel (watchdog)");
+                cx.rep
+                    .borrow_mut()
+                    .inconclusive("client socket not closed after cancel (watchdog)");
                 return;
             }
         }
@@ -1604,7 +1913,10 @@ async fn run_cancel_case(cx: &Ctx<'_>, rng: &mut Rng) {
     }
     drop(rep);
     if !after.is_empty() {
-        let w = cx.witness(vec![("still_installed", render_set(&after)), ("installed_before_cancel", render_set(&before))]);
+        let w = cx.witness(vec![
+            ("still_installed", render_set(&after)),
+            ("installed_before_cancel", render_set(&before)),
+        ]);
         cx.rep.borrow_mut().violation(
             "C13/session-end/vrps-remain/try-connect-cancelled",
             "a cache's VRPs stay installed after its session was ended through the cancellation token (DisableRpki / DeleteRpki path of try_connect)",
@@ -1616,7 +1928,10 @@ async fn run_cancel_case(cx: &Ctx<'_>, rng: &mut Rng) {
 // ------------------------------------------------------------------ entry point
 
 fn new_runtime() -> tokio::runtime::Runtime {
-    tokio::runtime::Builder::new_current_thread().enable_all().build().expect("tokio runtime")
+    tokio::runtime::Builder::new_current_thread()
+        .enable_all()
+        .build()
+        .expect("tokio runtime")
 }
 
 #[test]
@@ -1695,7 +2010,13 @@ fn report_panic(rep: &RefCell<Report>, log: &RefCell<Vec<String>>, p: PanicInfo)
     let sig = format!("C13/panic/{}:{}", p.location, panic_class(&p.message));
     rep.violation(
         &sig,
-        &format!("panic while a conforming cache was talking to the RTR client: {}", p.message),
-        Json::obj(vec![("history", Json::strs(log.borrow().iter().cloned())), ("message", Json::s(p.message.clone()))]),
+        &format!(
+            "panic while a conforming cache was talking to the RTR client: {}",
+            p.message
+        ),
+        Json::obj(vec![
+            ("history", Json::strs(log.borrow().iter().cloned())),
+            ("message", Json::s(p.message.clone())),
+        ]),
     );
 }
